@@ -51,7 +51,7 @@ package app
 //@ // checked in; every present key has positive power
 //@ pred valKeyOf(app, k, placeholder) := ite(has(app.Identities, k), app.Identities[k].Ed25519pubkey, placeholder)
 //@ func (*ShutterApp).makePowermap
-//@   requires app != nil && len(keypers) <= 1048576
+//@   requires app != nil
 //@   // powers add up: a key that stands for two list positions carries at least 20 (the exact statement
 //@   // "10 x multiplicity" needs a recursive count under a quantifier, which no solver decided)
 //@   ensures forall i, j :: 0 <= i && i < j && j < len(keypers) && valKeyOf(app, keypers[i], NonExistentValidator.Ed25519pubkey) == valKeyOf(app, keypers[j], NonExistentValidator.Ed25519pubkey) ==> ret0[valKeyOf(app, keypers[i], NonExistentValidator.Ed25519pubkey)] >= 20
@@ -98,7 +98,7 @@ package app
 //@ // what makePowermap returns for a keyper list (its postcondition as a predicate)
 //@ pred pmOf(pm, app, keypers) := pm != nil && positive(pm) && (forall p Str :: has(pm, p) ==> (exists i :: 0 <= i && i < len(keypers) && valKeyOf(app, keypers[i], NonExistentValidator.Ed25519pubkey) == p)) && (forall i :: 0 <= i && i < len(keypers) ==> has(pm, valKeyOf(app, keypers[i], NonExistentValidator.Ed25519pubkey)))
 //@ pred cfgActive(app, i) := app.Configs[i].Started && app.Configs[i].ValidatorsUpdated
-//@ pred wfConfigs(app) := forall i :: 0 <= i && i < len(app.Configs) ==> (app.Configs[i] != nil && len(app.Configs[i].Keypers) <= 1048576)
+//@ pred wfConfigs(app) := forall i :: 0 <= i && i < len(app.Configs) ==> (app.Configs[i] != nil)
 //@
 //@ // the intended validator set: that of the newest started configuration whose check-in quorum is met,
 //@ // otherwise the current one
@@ -248,7 +248,7 @@ package app
 //@ // a configuration can be added iff it is valid, its index is strictly larger and its activation block not
 //@ // smaller than the newest one
 //@ func (*ShutterApp).checkConfig
-//@   requires app != nil && len(app.Configs) >= 1 && app.Configs[len(app.Configs) - 1] != nil && len(cfg.Keypers) <= 1048576
+//@   requires app != nil && len(app.Configs) >= 1 && app.Configs[len(app.Configs) - 1] != nil
 //@   ensures ret0 == nil <==> cfgOK(app, cfg)
 //@
 //@ func (*ShutterApp).allowedToVoteOnConfigChanges
@@ -262,7 +262,7 @@ package app
 //@
 //@ pred configsUnchanged(app) := len(app.Configs) == old(len(app.Configs)) && (forall i :: 0 <= i && i < len(app.Configs) ==> app.Configs[i] == old(app.Configs[i]))
 //@ func (*ShutterApp).addConfig
-//@   requires app != nil && app.CheckTxState != nil && wfConfigs(app) && len(app.Configs) >= 1 && len(cfg.Keypers) <= 1048576
+//@   requires app != nil && app.CheckTxState != nil && wfConfigs(app) && len(app.Configs) >= 1
 //@   ensures ret0 == nil <==> old(cfgOK(app, cfg))
 //@   ensures ret0 != nil ==> configsUnchanged(app)
 //@   ensures ret0 == nil ==> (len(app.Configs) == old(len(app.Configs)) + 1 && (forall i :: 0 <= i && i < old(len(app.Configs)) ==> app.Configs[i] == old(app.Configs[i])))
@@ -278,7 +278,7 @@ package app
 //@ // at the newest configuration's threshold succeeds; acceptance resets the votes and starts a fresh eon.
 //@ // C10: a refused message (code != 0) changes neither configurations, votes, eons nor the DKG map.
 //@ func (*ShutterApp).deliverBatchConfig
-//@   requires appInv(app) && msg != nil && len(msg.Keypers) <= 1048576 && app.EONCounter < 18446744073709551614
+//@   requires appInv(app) && msg != nil && app.EONCounter < 18446744073709551614
 //@   assigns app.ShutterApp.Configs, app.CheckTxState.Members, app.ShutterApp.EONCounter, app.ShutterApp.ConfigVoting.Votes, app.ShutterApp.ConfigVoting.Candidates, mapof(map[uint64]*app.DKGInstance), mapobj(app.ConfigVoting.Votes)
 //@   ensures len(app.Configs) == old(len(app.Configs)) || len(app.Configs) == old(len(app.Configs)) + 1
 //@   ensures forall i :: 0 <= i && i < old(len(app.Configs)) ==> app.Configs[i] == old(app.Configs[i])
@@ -387,8 +387,8 @@ package app
 //@ // C10: whatever the payload, a refused message (code != 0) has no effect on the consensus state
 //@ pred noEffect(app) := len(app.Configs) == old(len(app.Configs)) && (forall i :: 0 <= i && i < len(app.Configs) ==> app.Configs[i] == old(app.Configs[i])) && app.EONCounter == old(app.EONCounter) && votesUnchanged(app) && dkgMapUnchanged(app) && dkgVotesUnchanged(app) && identitiesUnchanged(app) && seenUnchanged(app)
 //@
-//@ // A-proto: decoded oneof wrappers are never typed nil pointers; A-size: a transaction carries at most 2^20 keyper addresses
-//@ pred wfPayload(m) := (typeis(m.Payload, "*shmsg.Message_BatchConfig") ==> as(m.Payload, "*shmsg.Message_BatchConfig") != nil) && (typeis(m.Payload, "*shmsg.Message_BlockSeen") ==> as(m.Payload, "*shmsg.Message_BlockSeen") != nil) && (typeis(m.Payload, "*shmsg.Message_CheckIn") ==> as(m.Payload, "*shmsg.Message_CheckIn") != nil) && (typeis(m.Payload, "*shmsg.Message_PolyEval") ==> as(m.Payload, "*shmsg.Message_PolyEval") != nil) && (typeis(m.Payload, "*shmsg.Message_PolyCommitment") ==> as(m.Payload, "*shmsg.Message_PolyCommitment") != nil) && (typeis(m.Payload, "*shmsg.Message_Accusation") ==> as(m.Payload, "*shmsg.Message_Accusation") != nil) && (typeis(m.Payload, "*shmsg.Message_Apology") ==> as(m.Payload, "*shmsg.Message_Apology") != nil) && (typeis(m.Payload, "*shmsg.Message_DkgResult") ==> as(m.Payload, "*shmsg.Message_DkgResult") != nil) && ((typeis(m.Payload, "*shmsg.Message_BatchConfig") && as(m.Payload, "*shmsg.Message_BatchConfig").BatchConfig != nil) ==> len(as(m.Payload, "*shmsg.Message_BatchConfig").BatchConfig.Keypers) <= 1048576)
+//@ // A-proto: decoded oneof wrappers are never typed nil pointers
+//@ pred wfPayload(m) := (typeis(m.Payload, "*shmsg.Message_BatchConfig") ==> as(m.Payload, "*shmsg.Message_BatchConfig") != nil) && (typeis(m.Payload, "*shmsg.Message_BlockSeen") ==> as(m.Payload, "*shmsg.Message_BlockSeen") != nil) && (typeis(m.Payload, "*shmsg.Message_CheckIn") ==> as(m.Payload, "*shmsg.Message_CheckIn") != nil) && (typeis(m.Payload, "*shmsg.Message_PolyEval") ==> as(m.Payload, "*shmsg.Message_PolyEval") != nil) && (typeis(m.Payload, "*shmsg.Message_PolyCommitment") ==> as(m.Payload, "*shmsg.Message_PolyCommitment") != nil) && (typeis(m.Payload, "*shmsg.Message_Accusation") ==> as(m.Payload, "*shmsg.Message_Accusation") != nil) && (typeis(m.Payload, "*shmsg.Message_Apology") ==> as(m.Payload, "*shmsg.Message_Apology") != nil) && (typeis(m.Payload, "*shmsg.Message_DkgResult") ==> as(m.Payload, "*shmsg.Message_DkgResult") != nil)
 //@ func (*ShutterApp).deliverMessage
 //@   requires appInv(app) && (msg != nil ==> wfPayload(msg)) && app.EONCounter < 18446744073709551614
 //@   assigns app.ShutterApp.Configs, app.CheckTxState.Members, app.ShutterApp.EONCounter, app.ShutterApp.ConfigVoting.Votes, app.ShutterApp.ConfigVoting.Candidates, mapof(map[uint64]*app.DKGInstance), mapof(map[common.Address]int), app.DKGInstance.SuccessVoting.Candidates, mapof(map[common.Address]app.ValidatorPubkey), mapof(map[common.Address]uint64), mapof(map[app.SenderReceiverPair]struct{}), mapof(map[common.Address]struct{})
@@ -398,7 +398,7 @@ package app
 //@ // unused; the pair is consumed before execution; a refused transaction (code != 0) produces no events and
 //@ // changes nothing but possibly that nonce.
 //@ func (*ShutterApp).DeliverTx
-//@   requires appInv(app) && app.EONCounter < 18446744073709551614 && len(req.Tx) <= 1048576
+//@   requires appInv(app) && app.EONCounter < 18446744073709551614
 //@   assigns app.ShutterApp.Configs, app.CheckTxState.Members, app.ShutterApp.EONCounter, app.ShutterApp.ConfigVoting.Votes, app.ShutterApp.ConfigVoting.Candidates, mapof(map[uint64]*app.DKGInstance), mapof(map[common.Address]int), app.DKGInstance.SuccessVoting.Candidates, mapof(map[common.Address]app.ValidatorPubkey), mapof(map[common.Address]uint64), mapof(map[app.SenderReceiverPair]struct{}), mapof(map[common.Address]struct{}), mapof(map[common.Address]map[uint64]bool), mapof(map[uint64]bool)
 //@   ensures ret0.Code == 0 ==> (err == nil && bytes_str(content(msg.ChainId)) == app.ChainID && !old(nonceUsed(app.NonceTracker, signer, msg.RandomNonce)) && nonceUsed(app.NonceTracker, signer, msg.RandomNonce))
 //@   ensures ret0.Code != 0 ==> (len(ret0.Events) == 0 && noEffect(app))
@@ -408,7 +408,7 @@ package app
 //@ // the mempool check refuses undecodable, foreign-chain and replayed transactions and senders outside every
 //@ // accepted keyper set
 //@ func (*ShutterApp).CheckTx
-//@   requires appInv(app) && app.CheckTxState.NonceTracker != nil && ntInv(app.CheckTxState.NonceTracker) && app.CheckTxState.TxCounts != nil && len(req.Tx) <= 1048576
+//@   requires appInv(app) && app.CheckTxState.NonceTracker != nil && ntInv(app.CheckTxState.NonceTracker) && app.CheckTxState.TxCounts != nil
 //@   assigns mapof(map[common.Address]int), mapof(map[common.Address]map[uint64]bool), mapof(map[uint64]bool)
 //@   ensures ret0.Code == 0 ==> (err == nil && bytes_str(content(msg.ChainId)) == app.ChainID && !old(nonceUsed(app.NonceTracker, signer, msg.RandomNonce)))
 //@   ensures ret0.Code == 0 ==> (old(len(app.CheckTxState.Members)) == 0 || old(pwb(app.CheckTxState.Members, signer)))
@@ -440,6 +440,21 @@ package app
 //@ func NewShutterApp
 //@   ensures ret0 != nil && fresh(ret0) && appInv(ret0) && len(ret0.Configs) == 1 && len(ret0.Configs[0].Keypers) == 0 && ret0.EONCounter == 0
 //@   ensures ret0.CheckTxState != nil && ret0.CheckTxState.TxCounts != nil && ntInv(ret0.CheckTxState.NonceTracker)
+//@
+//@ // start-up: InitChain takes the state NewShutterApp built (no key generation filed yet) to a state with the
+//@ // representation invariant every handler relies on; the only conjunct of appInv it cannot establish is the
+//@ // bound on the eon counter, which it copies from the genesis document (A-proto assumes that bound at every
+//@ // handler anyway). Genesis decoding (amino) is an unmodelled call; log.Fatal is treated as returning, i.e. the
+//@ // invariant is shown even on the paths on which the process would in fact exit.
+//@ func (*ShutterApp).InitChain
+//@   requires appInv(app) && (forall e :: !has(app.DKGMap, e))
+//@   assigns app.ShutterApp.ForkHeights, app.ForkHeights.CheckInUpdateNew, app.ForkHeights.CheckInUpdate, app.ShutterApp.Validators, app.ShutterApp.Configs, app.ShutterApp.EONCounter, app.ShutterApp.CheckTxState, app.ShutterApp.ChainID
+//@   ensures appCfgInv(app) && len(app.Configs) >= 1
+//@   ensures app.DKGMap != nil && (forall e :: !has(app.DKGMap, e))
+//@   ensures ntInv(app.NonceTracker) && app.CheckTxState != nil
+//@   ensures votingInv(app.ConfigVoting)
+//@   ensures votingsSeparate(app)
+//@   ensures votesUnchanged(app)
 //@
 //@ // C11: votes are pooled only for IDENTICAL configs - the equality the config voting uses implies agreement of
 //@ // threshold, config index, activation block and keyper list
